@@ -173,6 +173,18 @@ def machine_spec(draw, profile="general", tier="quick"):
         steps.append({"sus": [], "asg": [[i % pools, i, 0, ["abs", 1], rs, None] for i in range(k)], "idle": 0})
         for _ in range(draw(st.integers(2, 12))):
             steps.append({"sus": [[j % pools, j // pools, "ok"] for j in range(draw(st.integers(1, k)))], "asg": [], "idle": 0})
+    if profile == "suspend" and draw(st.integers(0, 5)) == 0:
+        # a marathon container: the very first container of the episode stays active in pool 0 for the whole episode while
+        # ten and more later containers come, get suspended and go (their identifiers extend its identifier: c1 / c10..c19)
+        pools, multi = 1, True
+        cpus = max(cpus, 8)
+        ram = draw(st.sampled_from([64, 100, 256]))
+        pipes.insert(0, {"ops": [[{"io": 0, "cp": 30, "law": "const", "mem": ["abs", 0.01]}] for _ in range(6)]})
+        for q in pipes[1:]:
+            q.pop("group", None)
+        npipes = len(pipes)
+        nsteps = max(nsteps, 18)
+        steps.append({"sus": [], "asg": [[0, 0, 0, ["abs", 1], ["cap", 0.02], None]], "idle": 0})
     for _ in range(nsteps):
         nsus = draw(st.sampled_from([0, 0, 0, 1, 1, 2] if profile != "suspend" else [0, 1, 1, 1, 2]))
         if pools >= 2 and profile in ("multi_pool", "suspend") and draw(st.integers(0, 2)) == 0:
@@ -419,6 +431,8 @@ class Episode:
                 continue
             sus_by_pool[pool].append(cid)
             real_sus.append(Suspend(cid, pool))
+            if any(c.cid != cid and c.cid in cid for c in m.active):
+                out.label("suspended_id_contains_id_of_active_neighbour")
             if any(x.pool_id == pool for x in real_sus[:-1]) and real_sus[-2].pool_id != pool:
                 out.label("suspensions_of_one_call_interleave_pools")
             if mode == "dup":
@@ -673,6 +687,10 @@ class Episode:
             return
         elif happened == "reject":
             self.problem("C08:valid-round-refused", f"admissible commands sus={sus_by_pool} asg={batch_by_pool} raised {type(exc).__name__}: {exc}")
+            if any(sus_by_pool.values()) and (not real_asg or "suspend" in str(exc).lower()):
+                # the round carried nothing but suspensions the model allows: containers that finished an operator in the previous
+                # tick and have another one left CAN be suspended
+                self.problem("C10:allowed-suspension-refused", f"suspensions {sus_by_pool} of containers that just finished an operator and have another one left raised {type(exc).__name__}: {exc}")
             if not isinstance(exc, (AssertionError, ValueError)):
                 # not a refusal but a crash inside the tick: the live containers get no outcome, the memory rules and the
                 # ledger of that tick are not applied - every pool property is broken by it
